@@ -131,10 +131,32 @@ def r1_targets_follow(ctx, writers):
                                 a0 = unparse(cc.args[0])
                                 ok = a0 in new_txt or any(a0.startswith(n + "[") for n in new_txt)
                                 ctx.ob("C10.R1", c.rel, qual, cc, "a rebuilt reward mapping is keyed by the new actions", ok, detail={"keyed_by": a0})
+                                # ... and its values are the old target applied to the OLD actions
+                                for mp in [m for e2 in _expand(cc.args[1], fn) for m in ast.walk(e2) if isinstance(m, ast.Call) and call_name(m) == "map" and len(m.args) == 2]:
+                                    A = mp.args[1]
+                                    okA, why = _is_old_actions(A, fn, X, st)
+                                    ctx.ob("C10.R1", c.rel, qual, mp, "the old reward function is evaluated on the old (pre-transformation) actions", okA, detail={"actions_expr": unparse(A), "why": why})
             for t in TARGETS:
                 ok = t in covered
                 ctx.ob("C10.R1", c.rel, qual, st, f"functional `{t}` is re-bound to the new action representation", ok,
                        detail={"rebuilt_targets": sorted(covered), "actions_value": unparse(st.value)[:100]}, stmt=f"{t} after: " + unparse(st)[:110])
+
+
+def _is_old_actions(A, fn, X, store):
+    """does expression A denote the actions BEFORE `X['actions'] = ...` (statement `store`) took effect?"""
+    txt = unparse(A)
+    if isinstance(A, ast.Subscript) and const_str(A.slice) == "actions" and isinstance(A.value, ast.Name):
+        if A.value.id != X:
+            return True, f"{txt}: the untouched input interaction"
+        return (A.lineno < store.lineno), f"{txt} read {'before' if A.lineno < store.lineno else 'AFTER'} the new actions were stored"
+    if isinstance(A, ast.Name):
+        binds = [x for x in walk_shallow(fn) if isinstance(x, ast.Assign) and any(isinstance(t, ast.Name) and t.id == A.id for t in x.targets)]
+        if binds and all(isinstance(b.value, ast.Subscript) and const_str(b.value.slice) == "actions" for b in binds):
+            ok = all(unparse(b.value.value) != X or b.lineno < store.lineno for b in binds)
+            return ok, f"{A.id} := {unparse(binds[0].value)} bound {'before' if ok else 'AFTER'} the store"
+        if binds and any(unparse(b.value) == unparse(store.value) for b in binds):
+            return False, f"{A.id} is the new action list"
+    return False, f"cannot show that {txt} denotes the old actions"
 
 
 def _covered_targets(fn, X, actions_store):
